@@ -375,7 +375,33 @@ func RunC19(t *testing.T, tape *Tape) *Outcome {
 		lineBP = keep
 	}
 	lateBP := tape.Choose(4) == 3 // install the breakpoints while stopped at the entry event
+	// replace the whole breakpoint set while stopped at the k-th break event
+	// (generated programs with line breakpoints only; the new set has line AND
+	// function requests, so that stale breakpoints of both kinds are reset)
+	var lineBP2 []int
+	var funcBP2 []string
+	switchAt := 0
+	if prog != nil && len(lineBP) > 0 && tape.Choose(3) == 2 {
+		switchAt = 1 + tape.Choose(4)
+		funcBP2 = append(funcBP2, prog.Funcs[tape.Choose(len(prog.Funcs))])
+		for _, l := range lines {
+			if tape.Choose(3) == 0 && prog.FLine[funcBP2[0]] != l {
+				lineBP2 = append(lineBP2, l)
+			}
+		}
+		if len(lineBP2) == 0 {
+			for _, l := range lines {
+				if prog.FLine[funcBP2[0]] != l {
+					lineBP2 = append(lineBP2, l)
+					break
+				}
+			}
+		}
+	}
 	policy := tape.Choose(5)      // 0 continue only; 1 step-into only; 2 step-over; 3 step-out mix; 4 random mix
+	if switchAt > 0 {
+		pname += fmt.Sprintf(" [replace set at break %d: lines %d funcs %v]", switchAt, len(lineBP2), funcBP2)
+	}
 	o.Desc = fmt.Sprintf("%s bp=%s(lines %d, funcs %v, late=%v) policy=%s", pname, [...]string{"none", "every-line", "subset", "funcs", "mix"}[bpMode], len(lineBP), funcBP, lateBP,
 		[...]string{"continue", "step-into", "step-over", "step-out-mix", "random-mix"}[policy])
 	if prog != nil {
@@ -410,6 +436,10 @@ func RunC19(t *testing.T, tape *Tape) *Outcome {
 	var sink *host.Sink
 	terminateSeenBeforeWait := false
 	inSetBP := false
+	var validLines2 map[int]bool
+	var validFuncs2 map[string]int
+	ticksAtSwitch := -1
+	breaksSeen := 0
 
 	res := Simulate(t, tape, cfg, func(r *Run) {
 		sink = r.NewSink(20000, nil)
@@ -468,6 +498,35 @@ func RunC19(t *testing.T, tape *Tape) *Outcome {
 						validLines[lineBP[i]] = true
 					} else {
 						validFuncs[funcBP[i-len(lineBP)]] = bp.Position.Line
+					}
+				}
+			}
+			install2 := func() {
+				var reqs []interp.BreakpointRequest
+				for _, l := range lineBP2 {
+					reqs = append(reqs, interp.LineBreakpoint(l))
+				}
+				for _, f := range funcBP2 {
+					reqs = append(reqs, interp.FunctionBreakpoint(f))
+				}
+				ticksAtSwitch = 0
+				for _, e := range sink.Events() {
+					if e.Kind == host.KTick {
+						ticksAtSwitch++
+					}
+				}
+				inSetBP = true
+				bps := dbg.SetBreakpoints(interp.ProgramBreakpointTarget(p), reqs...)
+				inSetBP = false
+				validLines2, validFuncs2 = map[int]bool{}, map[string]int{}
+				for i, bp := range bps {
+					if !bp.Valid {
+						continue
+					}
+					if i < len(lineBP2) {
+						validLines2[lineBP2[i]] = true
+					} else {
+						validFuncs2[funcBP2[i-len(lineBP2)]] = bp.Position.Line
 					}
 				}
 			}
@@ -543,6 +602,12 @@ func RunC19(t *testing.T, tape *Tape) *Outcome {
 						stop = true
 						if ev.reason == interp.DebugEntry && lateBP && validLines == nil {
 							install()
+						}
+						if ev.reason == interp.DebugBreak {
+							breaksSeen++
+							if switchAt > 0 && breaksSeen == switchAt && ticksAtSwitch < 0 && validLines[ev.line] {
+								install2()
+							}
 						}
 					}
 				}
@@ -631,11 +696,24 @@ func RunC19(t *testing.T, tape *Tape) *Outcome {
 		for _, l := range validFuncs {
 			fline[l] = true
 		}
+		fline2 := map[int]bool{}
+		for _, l := range validFuncs2 {
+			fline2[l] = true
+		}
 		var want, got []int
-		for _, l := range ref.ticks {
-			if validLines[l] || fline[l] {
+		for i, l := range ref.ticks {
+			// the break event at which the set was replaced belongs to the marker
+			// that follows it (index ticksAtSwitch): still judged by the old set
+			if ticksAtSwitch < 0 || i <= ticksAtSwitch {
+				if validLines[l] || fline[l] {
+					want = append(want, l)
+				}
+			} else if validLines2[l] || fline2[l] {
 				want = append(want, l)
 			}
+		}
+		if ticksAtSwitch >= 0 {
+			o.FaultFired["breakpoint-set-replaced-mid-session"]++
 		}
 		for _, e := range events {
 			if e.reason == interp.DebugBreak {
